@@ -250,9 +250,17 @@ func run(c *Case, st *stats) *vf.Failure {
 			if len(liveIDs) == 0 {
 				continue
 			}
-			bpm.FlushPage(liveIDs[op.T%len(liveIDs)])
+			fid := liveIDs[op.T%len(liveIDs)]
+			bpm.FlushPage(fid)
+			if p, held := pins[fid]; held {
+				p.modified = false // what the holder wrote is on disk now: it may release the page clean
+				st.classes["flush-of-pinned-modified-page"] = true
+			}
 		case "flushall":
 			bpm.FlushAllPages()
+			for _, p := range pins {
+				p.modified = false
+			}
 		case "flushdirty":
 			bpm.FlushAllDirtyPages()
 		case "dealloc": // skip-list shape: mark while pinned, unpin, then DeallocatePage(id,false)
@@ -388,11 +396,11 @@ func genCase(t *rapid.T, noNoWait bool) *Case {
 	return c
 }
 
-const rule = "Case = (pool of 2-12 frames, in-memory or file-backed disk manager, 5-120 operations by simulated users holding pin handles: NewPage, FetchPage of a live id, write bytes into a pinned page, UnpinPage(dirty|clean; dirty whenever the holder modified the page), FlushPage, FlushAllPages, FlushAllDirtyPages, deallocation in the skip-list shape (SetIsDeallocated+unpin+DeallocatePage(id,false)) and in the hash-join shapes (DeallocatePage(id,true) on an unpinned / on a still pinned page), fresh pool on the same disk after FlushAllPages; pages that are allocated and released without ever being written, and later fetches of them, which may fail). Oracle: map model id -> bytes last written; FetchPage returns those bytes, the same frame object as other pins, a pinned handle never changes id or bytes, NewPage never returns a live id. Non-trivial = a page that had been modified and unpinned to zero was fetched again when no frame held it any more (eviction + re-fetch), or a deallocated id was handed out again."
+const rule = "Case = (pool of 2-12 frames, in-memory or file-backed disk manager, 5-120 operations by simulated users holding pin handles: NewPage, FetchPage of a live id, write bytes into a pinned page, UnpinPage(dirty|clean; dirty whenever the holder modified the page since it last flushed it), FlushPage, FlushAllPages, FlushAllDirtyPages, deallocation in the skip-list shape (SetIsDeallocated+unpin+DeallocatePage(id,false)) and in the hash-join shapes (DeallocatePage(id,true) on an unpinned / on a still pinned page), fresh pool on the same disk after FlushAllPages; pages that are allocated and released without ever being written, and later fetches of them, which may fail). Oracle: map model id -> bytes last written; FetchPage returns those bytes, the same frame object as other pins, a pinned handle never changes id or bytes, NewPage never returns a live id. Non-trivial = a page that had been modified and unpinned to zero was fetched again when no frame held it any more (eviction + re-fetch), or a deallocated id was handed out again."
 
 var assumptions = []string{
 	"never more distinct pinned pages than frames before a call that needs a frame (the clock replacer panics by design otherwise)",
-	"a holder that modified a page unpins it with isDirty=true; deallocated ids are not fetched before they are handed out again",
+	"a holder that modified a page and did not flush it afterwards unpins it with isDirty=true; deallocated ids are not fetched before they are handed out again",
 	"single goroutine (concurrent use of the pool is exercised by the C19 workloads)",
 }
 
